@@ -14,10 +14,12 @@ import (
 func init() {
 	register(&Property{ID: "C06", Run: runC06, Mutants: []Mutant{
 		{Name: "import filter trusts the name lookup instead of the import kind", File: "internal/wat/watutil/watstrip/remove_unused.go", Old: "\t\tif importSpec.ObjKind == token.FUNC {\n\t\t\tif fnObj := p.funcs[importSpec.FuncName]; fnObj.color == white {\n\t\t\t\tcontinue // skip\n\t\t\t}\n\t\t}", New: "\t\tif fnObj, ok := p.funcs[importSpec.FuncName]; ok && fnObj.color == white {\n\t\t\tcontinue // skip\n\t\t}", Expect: "drop #1 is for function imports only"},
-		{Name: "first exported function ends the root scan", File: "internal/wat/watutil/watstrip/remove_unused.go", Old: "\t\t\t\tif exp.Name != \"\" && fn.Name == exp.FuncIdx {\n\t\t\t\t\tp.markFuncReachable(p.funcs[fn.Name])\n\t\t\t\t\tcontinue Loop", New: "\t\t\t\tif exp.Name != \"\" && fn.Name == exp.FuncIdx {\n\t\t\t\t\tp.markFuncReachable(p.funcs[fn.Name])\n\t\t\t\t\tbreak Loop", Expect: "loop over the module's functions runs to the end"},
-		{Name: "roots looked up directly, first hit of an element segment ends the segment", File: "internal/wat/watutil/watstrip/remove_unused.go", Old: "Loop:\n\tfor _, fn := range p.m.Funcs {\n\t\t// start\n\t\tif fn.Name != \"\" && fn.Name == p.m.Start {\n\t\t\tp.markFuncReachable(p.funcs[fn.Name])\n\t\t\tcontinue\n\t\t}\n\n\t\t// table elem\n\n\t\tfor _, elem := range p.m.Elem {\n\t\t\tfor _, elemValue := range elem.Values {\n\t\t\t\tif fn.Name != \"\" && fn.Name == elemValue {\n\t\t\t\t\tp.markFuncReachable(p.funcs[fn.Name])\n\t\t\t\t\tcontinue Loop\n\t\t\t\t}\n\t\t\t}\n\t\t}\n\n\t\t// export\n\t\tfor _, exp := range p.m.Exports {\n\t\t\tif exp.Kind == token.FUNC {\n\t\t\t\tif exp.Name != \"\" && fn.Name == exp.FuncIdx {\n\t\t\t\t\tp.markFuncReachable(p.funcs[fn.Name])\n\t\t\t\t\tcontinue Loop\n\t\t\t\t}\n\t\t\t}\n\t\t}\n\t}\n\n", New: "\t// start\n\tif p.m.Start != \"\" {\n\t\tif fn, ok := p.funcs[p.m.Start]; ok {\n\t\t\tp.markFuncReachable(fn)\n\t\t}\n\t}\n\n\t// table elem\nLoop:\n\tfor _, elem := range p.m.Elem {\n\t\tfor _, elemValue := range elem.Values {\n\t\t\tif fn, ok := p.funcs[elemValue]; ok && fn.color == white {\n\t\t\t\tp.markFuncReachable(fn)\n\t\t\t\tcontinue Loop\n\t\t\t}\n\t\t}\n\t}\n\n\t// export\n\tfor _, exp := range p.m.Exports {\n\t\tif exp.Kind == token.FUNC && exp.Name != \"\" {\n\t\t\tif fn, ok := p.funcs[exp.FuncIdx]; ok && fn.color == white {\n\t\t\t\tp.markFuncReachable(fn)\n\t\t\t}\n\t\t}\n\t}\n\n", Expect: "every root is visited"},
-		{Name: "printer swallows every export that targets an inline-exported function", File: "internal/wat/printer/printer_export.go", Old: "if fn.Name == e.FuncIdx && fn.ExportName == e.Name {", New: "if fn.ExportName != \"\" && fn.Name == e.FuncIdx {", Expect: "roots-survive-printing :: printExport: skip only the function's own inline export"},
-		{Name: "strip ignores the start function root", File: "internal/wat/watutil/watstrip/remove_unused.go", Old: "if fn.Name != \"\" && fn.Name == p.m.Start {", New: "if fn.Name != \"\" && fn.Name == p.m.Name {", Expect: "root-completeness :: Module.Start"},
+		{Name: "first exported function ends the root scan", File: "internal/wat/watutil/watstrip/remove_unused.go", Old: "\t\t\t\tif name == exp.FuncIdx {\n\t\t\t\t\tp.markFuncReachable(p.funcs[name])\n\t\t\t\t\tcontinue Loop", New: "\t\t\t\tif name == exp.FuncIdx {\n\t\t\t\t\tp.markFuncReachable(p.funcs[name])\n\t\t\t\t\tbreak Loop", Expect: "loop over the module's functions runs to the end"},
+		{Name: "roots looked up directly, first hit of an element segment ends the segment", File: "internal/wat/watutil/watstrip/remove_unused.go", Old: "\t// 导入函数同样可能是 start/elem/export 引用的根\n\tvar names []string\n\tfor _, importSpec := range p.m.Imports {\n\t\tif importSpec.ObjKind == token.FUNC {\n\t\t\tnames = append(names, importSpec.FuncName)\n\t\t}\n\t}\n\tfor _, fn := range p.m.Funcs {\n\t\tnames = append(names, fn.Name)\n\t}\n\nLoop:\n\tfor _, name := range names {\n\t\tif name == \"\" {\n\t\t\tcontinue\n\t\t}\n\n\t\t// start\n\t\tif name == p.m.Start {\n\t\t\tp.markFuncReachable(p.funcs[name])\n\t\t\tcontinue\n\t\t}\n\n\t\t// table elem\n\n\t\tfor _, elem := range p.m.Elem {\n\t\t\tfor _, elemValue := range elem.Values {\n\t\t\t\tif name == elemValue {\n\t\t\t\t\tp.markFuncReachable(p.funcs[name])\n\t\t\t\t\tcontinue Loop\n\t\t\t\t}\n\t\t\t}\n\t\t}\n\n\t\t// export\n\t\tfor _, exp := range p.m.Exports {\n\t\t\tif exp.Kind == token.FUNC {\n\t\t\t\tif name == exp.FuncIdx {\n\t\t\t\t\tp.markFuncReachable(p.funcs[name])\n\t\t\t\t\tcontinue Loop\n\t\t\t\t}\n\t\t\t}\n\t\t}\n\t}\n\n", New: "\t// start\n\tif p.m.Start != \"\" {\n\t\tif fn, ok := p.funcs[p.m.Start]; ok {\n\t\t\tp.markFuncReachable(fn)\n\t\t}\n\t}\n\n\t// table elem\nLoop:\n\tfor _, elem := range p.m.Elem {\n\t\tfor _, elemValue := range elem.Values {\n\t\t\tif fn, ok := p.funcs[elemValue]; ok && fn.color == white {\n\t\t\t\tp.markFuncReachable(fn)\n\t\t\t\tcontinue Loop\n\t\t\t}\n\t\t}\n\t}\n\n\t// export\n\tfor _, exp := range p.m.Exports {\n\t\tif exp.Kind == token.FUNC {\n\t\t\tif fn, ok := p.funcs[exp.FuncIdx]; ok && fn.color == white {\n\t\t\t\tp.markFuncReachable(fn)\n\t\t\t}\n\t\t}\n\t}\n\n", Expect: "every root is visited"},
+		{Name: "printer swallows every export that targets an inline-exported function", File: "internal/wat/printer/printer_export.go", Old: "if fn.ExportName != \"\" && fn.Name == e.FuncIdx && fn.ExportName == e.Name {", New: "if fn.ExportName != \"\" && fn.Name == e.FuncIdx {", Expect: "roots-survive-printing :: printExport: skip only the function's own inline export"},
+		{Name: "printer takes an export named \"\" for the inline export of a function without one", File: "internal/wat/printer/printer_export.go", Old: "if fn.ExportName != \"\" && fn.Name == e.FuncIdx && fn.ExportName == e.Name {", New: "if fn.Name == e.FuncIdx && fn.ExportName == e.Name {", Expect: "roots-survive-printing :: printExport: skip only the function's own inline export"},
+		{Name: "roots searched among the module's own functions only", File: "internal/wat/watutil/watstrip/remove_unused.go", Old: "\tfor _, importSpec := range p.m.Imports {\n\t\tif importSpec.ObjKind == token.FUNC {\n\t\t\tnames = append(names, importSpec.FuncName)\n\t\t}\n\t}\n\tfor _, fn := range p.m.Funcs {", New: "\tfor _, fn := range p.m.Funcs {", Expect: "function imports are looked at when roots are marked"},
+		{Name: "strip ignores the start function root", File: "internal/wat/watutil/watstrip/remove_unused.go", Old: "if name == p.m.Start {", New: "if name == p.m.Name {", Expect: "root-completeness :: Module.Start"},
 		{Name: "strip does not recurse into else bodies", File: "internal/wat/watutil/watstrip/remove_unused.go", Old: "\t\tfor _, x := range ins.Else {\n\t\t\tp.markFuncReachable_ins(x)\n\t\t}\n", New: "", Expect: "edge-completeness :: Ins_If.Else"},
 		{Name: "strip does not recurse into loops", File: "internal/wat/watutil/watstrip/remove_unused.go", Old: "\tcase ast.Ins_Loop:\n\t\tfor _, x := range ins.List {\n\t\t\tp.markFuncReachable_ins(x)\n\t\t}\n", New: "", Expect: "edge-completeness :: Ins_Loop.List"},
 		{Name: "kept functions filter inverted for imports", File: "internal/wat/watutil/watstrip/remove_unused.go", Old: "fnObj.color == white {\n\t\t\t\tcontinue // skip", New: "fnObj.color != white {\n\t\t\t\tcontinue // skip", Expect: "removal-filter"},
@@ -115,6 +117,10 @@ func runC06(c *Ctx) {
 				fmt.Sprintf("DoPass never marks functions referenced by %s as reachable: such functions are stripped although they are roots", root))
 			c.Check(len(skips) == 0, rRoot, root+": every root is visited", p.Pos(dp.Pos()), "no jump leaves a loop over the roots after a mark", strings.Join(skips, "; "))
 		}
+		// imported functions can be roots too (exported again, listed in an element segment, named by start): the pass
+		// drops unmarked function imports, so it must look for the roots among them as well
+		c.Check(c06ImportRoots(info, dp), rRoot, "function imports are looked at when roots are marked", p.Pos(dp.Pos()), "the names compared with the roots include the imports' FuncName (or a loop over the imports marks)",
+			"DoPass looks for the start function, element-segment entries and function exports only among the module's own functions, but it drops every unmarked function import: an import that is exported, in a table or the start function is removed while the reference to it stays, and the stripped module no longer assembles")
 		if nm, early := funcLoopLeftEarly(info, p, dp); nm > 0 {
 			c.Check(len(early) == 0, rRoot, "loop over the module's functions runs to the end", p.Pos(dp.Pos()), "no return or break out of it after a mark", strings.Join(early, "; "))
 		}
@@ -407,14 +413,9 @@ func rootMarked(info *types.Info, dp *ast.FuncDecl, root string) bool {
 				return true
 			}
 			for _, pair := range [][2]ast.Expr{{be.X, be.Y}, {be.Y, be.X}} {
-				if !strings.HasSuffix(types.ExprString(pair[0]), ".Name") {
+				// the left side must be the function's name: fn.Name, or a variable ranging over the collected names
+				if !isFuncNameExpr(info, pair[0], c06NameVars(info, dp)) {
 					continue
-				}
-				// the .Name must be the function's name
-				if se, ok := pair[0].(*ast.SelectorExpr); ok {
-					if sel, ok := info.Selections[se]; !ok || namedTypeName(sel.Recv()) != "Func" {
-						continue
-					}
 				}
 				switch o := pair[1].(type) {
 				case *ast.SelectorExpr:
@@ -479,7 +480,7 @@ func exportSkipPredicate(c *Ctx, p *Prog, pp *packages.Package, arm Arm, rule st
 			continue
 		}
 		// every `return true` must sit under conditions that contain both field equalities
-		good, nTrue := true, 0
+		good, nTrue, noInline := true, 0, false
 		var walk func(list []ast.Stmt, conds []ast.Expr)
 		pairOK := func(conds []ast.Expr, a, b string) bool {
 			for _, cnd := range conds {
@@ -525,6 +526,10 @@ func exportSkipPredicate(c *Ctx, p *Prog, pp *packages.Package, arm Arm, rule st
 							if !(pairOK(conds, "ExportSpec.FuncIdx", "Func.Name") && pairOK(conds, "ExportSpec.Name", "Func.ExportName")) {
 								good = false
 							}
+							// … and the function must have an inline export at all: two empty names are equal too
+							if !exportNameNonEmpty(info, conds) {
+								good, noInline = false, true
+							}
 						}
 					}
 				}
@@ -532,7 +537,7 @@ func exportSkipPredicate(c *Ctx, p *Prog, pp *packages.Package, arm Arm, rule st
 		}
 		walk(fd.Body.List, nil)
 		c.Check(good && nTrue > 0, rule, "printExport: skip only the function's own inline export", p.Pos(fd.Pos()), "skip requires FuncIdx == fn.Name and Name == fn.ExportName",
-			name+" answers true without establishing both ExportSpec.FuncIdx == Func.Name and ExportSpec.Name == Func.ExportName: a module-level export that differs from the function's inline export (second export name, or a function with another inline export) is dropped from the printed module")
+			name+" answers true without establishing both ExportSpec.FuncIdx == Func.Name and ExportSpec.Name == Func.ExportName"+map[bool]string{true: " for a function that has an inline export (Func.ExportName != \"\"): an export whose name is the empty string equals the empty ExportName of a function without inline export and is never printed", false: ""}[noInline]+": a module-level export that differs from the function's inline export (second export name, or a function with another inline export) is dropped from the printed module")
 	}
 }
 
